@@ -493,6 +493,10 @@ func (encryptor *QueryDataEncryptor) getInsertPlaceholders(ctx context.Context, 
 				logger.WithFields(logrus.Fields{"value_index": i, "column_count": len(columns)}).Warningln("Amount of values in INSERT bigger than column count")
 				continue
 			}
+			// only bare placeholders are bound to values; literals were processed with the query text
+			if value.GetParamRef() == nil {
+				continue
+			}
 			err := encryptor.updatePlaceholderMap(valuesCount, placeholders, int(value.GetParamRef().GetNumber()), columns[i])
 			if err != nil {
 				return nil, err
@@ -585,6 +589,10 @@ func (encryptor *QueryDataEncryptor) encryptUpdateValues(ctx context.Context, up
 			continue
 		}
 
+		// only bare placeholders are bound to values; literals were processed with the query text
+		if target.GetResTarget().GetVal().GetParamRef() == nil {
+			continue
+		}
 		columnName := target.GetResTarget().GetName()
 		index := int(target.GetResTarget().GetVal().GetParamRef().GetNumber())
 		err := encryptor.updatePlaceholderMap(len(values), placeholders, index, columnName)
